@@ -197,7 +197,7 @@ theorem route_starts_at_supplied_first_hop (g : Graph) (p : Params) (r : Route) 
   | last _ hd c hl hok _ _ =>
     obtain ⟨k0, k1, k2, k3, k4, k5⟩ := key hd c hl
     exact ⟨hd, [], c, rfl, k0, k1, k2, k3, k4, k5, hok.2.1⟩
-  | cons _ hd h' t c c' f hl hok hl' hf' hfee hcl hrest =>
+  | cons _ hd h' t c c' f _ hl hok hl' hf' hfee hcl hrest =>
     obtain ⟨k0, k1, k2, k3, k4, k5⟩ := key hd c hl
     exact ⟨hd, h' :: t, c, rfl, k0, k1, k2, k3, k4, k5, hok.2.1⟩
 
@@ -230,6 +230,51 @@ example : verdict exGraph3 { exParams3 with excludedBlinded := [0] } exRoute3 = 
 example : verdict exGraph3 { exParams3 with maxFee := none }
   [ [ { scid := 44, node := 1, fee := 10, cltv := 40 }, { scid := 5, node := 2, fee := 1500, cltv := 100 }, { scid := 0, node := 9, fee := 100000, cltv := 0, blinded := true } ],
     [ { scid := 1, node := 1, fee := 10, cltv := 40 }, { scid := 5, node := 2, fee := 1500, cltv := 100 }, { scid := 0, node := 9, fee := 100000, cltv := 0, blinded := true } ] ] = "invalid capacity" := by decide
+
+private theorem chain_blinded_only_last (g : Graph) (p : Params) : ∀ (path : RPath) (src : Nat),
+    ChainOK g p src path → ∀ h ∈ path.dropLast, h.blinded = false := by
+  intro path
+  induction path with
+  | nil => intro src hc; cases hc
+  | cons a t ih =>
+    intro src hc h hm
+    cases hc with
+    | last _ _ _ _ _ _ _ => simp at hm
+    | cons _ _ h' t' c c' f hnb hl hok hl' hf hfee hcl hrest =>
+      simp only [List.dropLast_cons_cons, List.mem_cons] at hm
+      rcases hm with rfl | hm
+      · exact hnb
+      · exact ih a.node hrest h hm
+
+/-- A blinded tail ends its path and is reached by a valid unblinded chain: in a route that meets the specification,
+    a blinded element can only be the LAST element of a path, and never the only one (the introduction node is reached
+    by at least one RouteHop, every one of which satisfies the chain rules above). -/
+theorem blinded_tail_is_last_and_reached (g : Graph) (p : Params) (r : Route) (h : RouteOK g p r) :
+    ∀ path ∈ r, ∀ hop ∈ path, hop.blinded = true → path.getLast? = some hop ∧ 1 ≤ pathLen path := by
+  intro path hp hop hm hb
+  have hc := h.chain path hp
+  have hdl := chain_blinded_only_last g p path p.payer hc
+  have hne : path ≠ [] := by intro he; rw [he] at hm; cases hm
+  have hsplit := List.dropLast_concat_getLast hne
+  have hlast : hop = path.getLast hne := by
+    rw [← hsplit] at hm
+    rcases List.mem_append.mp hm with h1 | h1
+    · have := hdl hop h1; rw [hb] at this; cases this
+    · simpa using h1
+  refine ⟨by rw [List.getLast?_eq_some_getLast hne, hlast], ?_⟩
+  -- not the only element: a blinded candidate is never resolved at the payer
+  cases hc with
+  | last _ a c hl _ _ _ =>
+    exfalso
+    have ha : a = hop := by simpa using hlast.symm
+    subst ha
+    unfold resolve at hl
+    simp [hb] at hl
+  | cons _ a h' t c c' f hnb _ _ _ _ _ _ _ =>
+    unfold pathLen
+    simp [hnb]
+
+example : (exRoute3.map fun path => path.map (·.blinded)) = [[false, false, true], [false, true]] := by decide
 
 /-- What the router reads of a candidate, per variant (statements about the GENERATED tables): our own channel
     is free and adds no CLTV delta; the BlindedPayInfo of a one-hop blinded path is ignored altogether; exactly
@@ -329,7 +374,7 @@ private theorem maxFinalGo_bound (pow : Nat) : ∀ (hops : List MHop) (idx : Nat
             | some c0 =>
               simp only [hm, Option.map_some, Option.some.injEq] at hc
               have : c ≤ c0 := by rw [← hc]; exact Nat.min_le_left _ _
-              exact ⟨B, P, c0, ha, hm, by omega⟩
+              exact ⟨B, P, c0, rfl, hm, by omega⟩
         | cons x pre' =>
           simp only [List.cons_append, List.cons.injEq] at he
           exact hrest pre' hp rest he.2
